@@ -114,8 +114,13 @@ def main():
         for sid in ids:
             for prop in (meta(sid).get("check_properties") or [meta(sid)["property"]]): baseline(prop)
     bad = 0
+    def safe(sid):
+        try:
+            return f(sid)
+        except Exception as e:
+            return sid, False, {"error": str(e)[:200]}
     with cf.ThreadPoolExecutor(max_workers=4) as ex:
-        for sid, ok, info in ex.map(f, ids):
+        for sid, ok, info in ex.map(safe, ids):
             print(("OK   " if ok else "NOT  ") + cmd, sid, info)
             bad += 0 if ok else 1
     return 0
